@@ -63,7 +63,8 @@ func opCaseTable(fd *ast.FuncDecl, info *types.Info, pick func(cc *ast.CaseClaus
 func c34(r *core.Run) {
 	r.Explanation = "Decided clauses: (R1) operator composition: for every binary arithmetic, bitwise and comparison ast.Operation, the value-interface method the interpreter calls equals the method called by the VM handler of the instruction the compiler emits for that operation, " +
 		"with the left operand as receiver and the right operand as argument in both engines; (R2) the VM's dispatch switch has an arm for every opcode.Instruction implementation; " +
-		"(R3) the natives registered for the VM's built-in type-bound functions are the same interpreter.Native* implementations the interpreter binds (pinned census of shared natives); "
+		"(R3) the natives registered for the VM's built-in type-bound functions are the same interpreter.Native* implementations the interpreter binds; " +
+		"(R4) methods that InterpreterEnvironment and vmEnvironment both implement are token-identical modulo the environment type, or differ exactly in the reviewed engine-wiring methods; (R5) the interpreter's and the VM's dynamic-cast helpers keep optionals for the same target types."
 	r.NotDecided = "observational equivalence per program (results, errors, events, storage writes)."
 	w := r.W
 	opm := valueOpMethods(w)
@@ -254,6 +255,13 @@ func c34(r *core.Run) {
 	}
 	r.Floor("R2.dispatch", 75)
 	c34Natives(r)
+	// R4 the two runtime environments implement the shared handler methods identically (token-identical modulo the
+	// environment type), or differ exactly where reviewed (engine-specific wiring)
+	siblingRule(r, "R4.environments", []*core.Family{famEnv}, func(g string) bool { return strings.HasPrefix(g, "runtime.(§0).") })
+	r.Floor("R4.environments", 14)
+	// R5 twin helpers: the cast helpers of both engines unbox optionals under the same guard
+	castUnboxAgreement(r, "R5.castunbox")
+	r.Floor("R5.castunbox", 1)
 }
 
 // c34Natives: R3 — for every sema.*FunctionName constant bound in both engines, the VM registers the same
